@@ -11,6 +11,7 @@ import BufrModel.Drv.CoderOp
 import BufrModel.Drv.ScriptOp
 import BufrModel.Drv.SectionsOp
 import BufrModel.Drv.SubsetOp
+import BufrModel.Drv.TemplateOp
 open Lean Bufr.Drv
 
 /-- stateless operations: one line per op -/
@@ -26,6 +27,7 @@ def statelessOps : List (String × (Json → J Json)) :=
   ("msg-decode", opMsgDecode) ::
   ("mdquery", opMdQuery) ::
   ("subset", opSubset) ::
+  ("normalize", opNormalize) ::
   []
 
 /-- operations that read or change the driver state -/
@@ -34,6 +36,10 @@ def statefulOps : List (String × (DrvState → Json → J (DrvState × Json))) 
   ("dec-data", opDecData) ::
   ("enc-data", opEncData) ::
   ("gen-data", opGenData) ::
+  ("build", opBuild) ::
+  ("expand-row", opExpandRow) ::
+  ("expand-all", opExpandAll) ::
+  ("tables-wf", opTablesWf) ::
   []
 
 def dispatch (st : DrvState) (j : Json) : J (DrvState × Json) := do
